@@ -15,12 +15,45 @@ mode = sys.argv[1]
 from lsprotocol import _hooks, converters, types  # noqa: E402
 
 TARGET = {"_resolve_forward_references", "_filter"}
-BATTERY = [
+HAND = [
     (types.Position, {"line": 1, "character": 2}),
     (types.InitializeParams, {"capabilities": {}, "processId": None, "rootUri": None}),
     (types.CompletionItem, {"label": "x", "kind": 3, "textEdit": {"range": {"start": {"line": 0, "character": 0}, "end": {"line": 0, "character": 1}}, "newText": "y"}}),
     (types.WorkspaceEdit, {"documentChanges": [{"kind": "create", "uri": "file:///a"}]}),
 ]
+
+
+def _generated():
+    """one battery for every protocol type and message class: the minimal and maximal valid value and one value per
+    alternative of every union occurrence (the generator of the converter correspondence), built before any converter exists"""
+    import os
+    import typing
+    sys.path.insert(0, os.path.dirname(os.path.dirname(os.path.abspath(__file__))))
+    import convops
+    import valuegen
+    repo = os.environ.get("VERIF_REPO", "/repo")
+    meta = valuegen.Meta.load([os.path.join(repo, "generator/lsp.json")])
+    out = []
+    for name, tag, j in convops.Streams(meta, 0, False).valid_stream():
+        if tag == "rand":
+            continue
+        t = getattr(types, name, None)
+        if t is None:
+            continue
+        out.append((name, j))
+    return out
+
+
+GEN = _generated()
+
+
+def _rt(name):
+    import typing
+    t = getattr(types, name)
+    return t if isinstance(t, type) else typing._eval_type(t, dict(types.ALL_TYPES_MAP), {})
+
+
+BATTERY = HAND
 
 
 def battery(conv):
@@ -31,6 +64,13 @@ def battery(conv):
             out.append(repr(v) + "|" + json.dumps(conv.unstructure(v, t), sort_keys=True, default=str))
         except Exception as e:  # noqa: BLE001
             out.append("ERR " + type(e).__name__)
+    for name, j in GEN:
+        try:
+            t = _rt(name)
+            v = conv.structure(j, t)
+            out.append(name + "|" + repr(v)[:400] + "|" + json.dumps(conv.unstructure(v, t), sort_keys=True, default=str)[:2000])
+        except Exception as e:  # noqa: BLE001
+            out.append(name + "|ERR " + type(e).__name__)
     return out
 
 
